@@ -30,6 +30,7 @@
                   overshoots the declared length), ext (32-bit length header)
      why  name of the last action taken (vacuity/coverage guard)          *)
 EXTENDS Naturals, Sequences, FiniteSets
+LOCAL SX == INSTANCE SequencesExt      \* FoldLeft (evaluated iteratively by TLC)
 
 \* ------------------------------------------------------------------ formats
 LZ10 == [name |-> "lz10", type |-> 16, W |-> 4096, MinLen |-> 3, LA |-> 18, LB |-> 18,
@@ -199,8 +200,15 @@ DStep(F, s, d) ==
 RECURSIVE RunFrom(_, _, _)
 RunFrom(F, s, d) == IF d.st \in Terminal THEN d ELSE RunFrom(F, s, DStep(F, s, d))
 
+\* The same run written as a bounded iteration (every step consumes a stream byte or
+\* terminates, so Len(s) + 3 steps suffice); TLC evaluates FoldLeft without recursion,
+\* which matters for streams of thousands of tokens.  MC_LZ checks RunIter = RunFrom.
+RunIter(F, s, d) ==
+  SX!FoldLeft(LAMBDA acc, x : IF acc.st \in Terminal THEN acc ELSE DStep(F, s, acc), d,
+           [i \in 1..(Len(s) + 3) |-> i])
+
 \* decode the stream that starts off bytes into s
-Decode(F, s, off) == RunFrom(F, s, Dec0(off))
+Decode(F, s, off) == RunIter(F, s, Dec0(off))
 
 WellFormed(F, s, off) == Decode(F, s, off).st = "done"
 
